@@ -77,6 +77,11 @@ def gen_cases(rng, tier):
         for none, ns in [(True, 0), (True, 1), (True, 2), (False, 0), (False, 1)]:
             for style in ("tuple", "list", "iterator", "generator", "filter"):
                 cases.append({"kind": "rollnone", "none": none, "ns": ns, "bt": bt, "style": style})
+    for bt in (False, True):
+        for rej in ("parity_frac", "none_outcome", "neg_count"):
+            for style in ("generator", "map", "filter", "list_then_fail"):
+                for nbefore in (1, 2):
+                    cases.append({"kind": "roll_lazy_fail", "rej": rej, "style": style, "nbefore": nbefore, "bt": bt})
     import evalcommon as ec
     q = gens.q
     for bt in (False, True):
@@ -220,6 +225,36 @@ def impl_run(case):
             else:
                 h.substitute(lambda hh, o: o, **kw)
             out = {"ok": 0}
+        elif k == "roll_lazy_fail":
+            # a Roll built from a lazy iterable that hits a rejected call part-way: the construction fails and the outcomes
+            # yielded before are as they were - unassociated, and usable in a valid roll afterwards
+            from dyce.r import Roll
+            outs = [RollOutcome(10 + j) for j in range(case["nbefore"])]
+
+            def boom():
+                if case["rej"] == "parity_frac":
+                    return RollOutcome(H({Fraction(1, 2): 1}).is_even().total)
+                if case["rej"] == "none_outcome":
+                    return RollOutcome(None)
+                return RollOutcome(H({1: -1}).total)
+            if case["style"] == "generator":
+                def g():
+                    yield from outs
+                    yield boom()
+                lazy = g()
+            elif case["style"] == "map":
+                lazy = map(lambda x: x if isinstance(x, RollOutcome) else boom(), outs + [None])
+            elif case["style"] == "filter":
+                lazy = filter(lambda x: True if isinstance(x, RollOutcome) else boom(), outs + [None])
+            else:
+                lazy = (x if isinstance(x, RollOutcome) else boom() for x in outs + [None])
+            try:
+                Roll(r, lazy, ())
+                out = {"exc": "Accepted"}
+            except (ValueError, TypeError):
+                good = Roll(r, outs, ())
+                ok = all(o.source_roll is good for o in outs) and len(good) == len(outs) and repr(outs[0].source_roll) == repr(good)
+                out = {"ok": 0} if ok else {"exc": "OutcomesBoundToDeadRoll"}
         elif k == "mech_reject":
             import evalcommon as ec
             answers, _ = ec.run_mech_impl(case["mech"], [tuple(c) for c in case["calls"]], use_foreach=case.get("foreach", False))
@@ -314,6 +349,8 @@ def coq_check(case, r):
         return f"chk_guard_unit (both_limits_guard {'true' if case['md'] else 'false'} {'true' if case['pl'] else 'false'}) {ok} {e}"
     if k == "rollnone":
         return f"chk_guard_unit (roll_outcome_guard {'true' if case['none'] else 'false'} {cnat(case['ns'])}) {ok} {e}"
+    if k == "roll_lazy_fail":
+        return None          # no model counterpart: decided by the oracle (the rejection leaves the outcomes usable)
     if k == "mech_reject":
         import evalcommon as ec
         from props.C06 import _cans
@@ -381,6 +418,8 @@ def oracle(case):
         return {"exc": ["ValueError"]} if (case["none"] and case["ns"] == 0) else {"ok": 0}
     if k == "adoptnone":
         return {"exc": ["ValueError"]} if (case["ns"] == 0 and case["mode"] != "append") else {"ok": 0}
+    if k == "roll_lazy_fail":
+        return {"ok": 0}
     if k == "mech_reject":
         import evalcommon as ec
         o = ec.oracle_calls(case["mech"], [tuple(c) for c in case["calls"]])
